@@ -8,7 +8,7 @@ fn alphabet(peers: u8) -> Vec<Op> {
     let mut a = vec![Op::Housekeeping];
     for i in 0..peers {
         a.extend([
-            Op::Include(i), Op::Ban(i), Op::Demote(i), Op::DemoteDirect(i), Op::Connected(i), Op::ConnectFailed(i), Op::Disconnected(i), Op::Error(i),
+            Op::Include(i), Op::Ban(i), Op::Demote(i), Op::DemoteDirect(i), Op::BanDirect(i), Op::Connected(i), Op::ConnectFailed(i), Op::Disconnected(i), Op::Error(i),
             Op::DeliverSent(i), Op::Reply(i, 0, 0), Op::Reply(i, 0, 1), Op::RecvViolating(i),
         ]);
     }
@@ -24,6 +24,7 @@ fn op_strategy(peers: u8) -> impl Strategy<Value = Op> {
         1 => p.clone().prop_map(Op::Ban),
         1 => p.clone().prop_map(Op::Demote),
         1 => p.clone().prop_map(Op::DemoteDirect),
+        1 => p.clone().prop_map(Op::BanDirect),
         3 => p.clone().prop_map(Op::Connected),
         1 => p.clone().prop_map(Op::ConnectFailed),
         2 => p.clone().prop_map(Op::Disconnected),
